@@ -267,9 +267,13 @@ fn run_c13(input: &Input, ctx: &Ctx, tier: Tier) -> CaseOut {
     }
     let writes: Vec<Option<String>> = (0..stream.len()).map(|i| tb.rare(1, 10).then(|| format!("arbitrary-{i}"))).collect();
     let leaf_stats: Vec<[usize; 6]> = (0..3).map(|_| std::array::from_fn(|_| tb.pick(4))).collect();
+    // every other case replaces the writer by its clone before one of the events
+    let clone_at = tb.chance(1, 2).then(|| tb.pick(stream.len().max(1)));
+    // every other case composes the nestings through the `WriterExt` methods
+    let ext = tb.chance(1, 2);
     let mut violations = vec![];
     for entry in 0..c13::ZOO_SIZE {
-        violations.extend(c13::check_entry(entry, &stream, &writes, &meta, &leaf_stats));
+        violations.extend(c13::check_entry(entry, &stream, &writes, &meta, &leaf_stats, clone_at, ext));
         if !violations.is_empty() {
             break;
         }
